@@ -46,6 +46,16 @@ def one_prop(prop):
             subprocess.run(["git", "-C", str(wt), "clean", "-fdq"], capture_output=True)
             ap = subprocess.run(["git", "-C", str(wt), "apply", str(d / "patch.diff")], capture_output=True, text=True)
             if ap.returncode != 0:
+                # later fix: commits moved the context: try a three-way merge and, when it is clean, store the rebased patch
+                subprocess.check_call(["git", "-C", str(wt), "checkout", "-q", "--", "."])
+                ap3 = subprocess.run(["git", "-C", str(wt), "apply", "--3way", str(d / "patch.diff")], capture_output=True, text=True)
+                if ap3.returncode == 0 and "conflicts" not in ap3.stderr:
+                    subprocess.run(["git", "-C", str(wt), "reset", "-q"], capture_output=True)
+                    (d / "patch.diff").write_text(subprocess.check_output(["git", "-C", str(wt), "diff"]).decode())
+                    ap = ap3
+                else:
+                    subprocess.run(["git", "-C", str(wt), "reset", "-q", "--hard"], capture_output=True)
+            if ap.returncode != 0:
                 out[d.name] = {"status": "stale", "why": ap.stderr.strip()[:200]}
                 print(f"{prop}/{d.name}: stale (patch no longer applies)", flush=True)
                 continue
